@@ -247,7 +247,11 @@ def run_history(rng, wsdir, uid):
             for arg, _ in GENS[cls_of(o)]:
                 pth = Path(getattr(o, arg))
                 owner = [j for j, jp in jobpaths.items() if pth == jp or jp in pth.parents]
-                assert len(owner) == 1, (pth, jobpaths)
+                if len(owner) != 1:
+                    # the attribute lies in the directory of no (or of several) submitted task(s): an observation about the code
+                    # under test (reported by the monitor of props/c17.py `histories`), not a failure of the worker
+                    got.append([-1, i, arg, ["<in the directory of %d submitted tasks>" % len(owner)] + list(pth.parts[-4:])])
+                    continue
                 got.append([owner[0], i, arg, list(pth.relative_to(jobpaths[owner[0]]).parts)])
         state = {"sealed": [bool(o.__xpm__._sealed) for o in objs],
                  "task": [None if o.__xpm__.task is None else ident(o.__xpm__.task) for o in objs]}
